@@ -687,6 +687,18 @@ func (m *Machine) mergeValues(c *Term, a, b value) (value, bool) {
 		if ba != bb {
 			return nil, false
 		}
+		fa, ca := concFloat(a)
+		fb, cb := concFloat(b)
+		if ca && cb {
+			if math.Float64bits(fa) == math.Float64bits(fb) {
+				return a, true
+			}
+			if m.noFloatLift {
+				// merging two different concrete floats would make arithmetic
+				// symbolic; forking keeps it concrete
+				return nil, false
+			}
+		}
 		if m.mode == ModeReal {
 			for _, v := range []value{a, b} {
 				if f, ok := concFloat(v); ok && (math.IsInf(f, 0) || math.IsNaN(f)) {
